@@ -201,16 +201,17 @@ Fixpoint list_eqb (a b : list byte) : bool :=
   | _, _ => false
   end.
 
+Definition is_quoted (s : string) : bool :=
+  match s with String c _ => Ascii.eqb c """"%char | EmptyString => false end.
+
 Definition key_matches (lit : string) (v : value) : bool :=
   match v with
-  | VInt n => match lit with
-              | EmptyString => false
-              | _ => match digits_val 0 lit with Some k => N.eqb k n | None => false end
-              end
-  | VStr s => match lit with
-              | String """"%char _ => list_eqb (string_bytes (unquote lit)) s
-              | _ => false
-              end
+  | VInt n => if is_quoted lit then false
+              else match lit with
+                   | EmptyString => false
+                   | _ => match digits_val 0 lit with Some k => N.eqb k n | None => false end
+                   end
+  | VStr s => if is_quoted lit then list_eqb (string_bytes (unquote lit)) s else false
   | _ => false
   end.
 
